@@ -14,6 +14,17 @@ Definition neutral (k : kind) : bool :=
   | _ => true
   end.
 
+(** The same without the optional-chain transformation (which may turn a chain into a member expression):
+    the four transformations of the operation visitor never produce a member expression either. *)
+Definition neutralM (k : kind) : bool :=
+  match k with
+  | KBin | KAssign | KTpl | KCall | KOptChain | KParen | KArrow => false
+  | _ => true
+  end.
+
+Lemma neutral_M k : neutral k = true -> neutralM k = true.
+Proof. destruct k; simpl; congruence. Qed.
+
 Lemma is_kind_tag k a b : tag_of a = tag_of b -> is_kind k a = is_kind k b.
 Proof. destruct a as [ta ca], b as [tb cb]; simpl; intros ->. reflexivity. Qed.
 
@@ -43,21 +54,23 @@ Ltac neutral_neq :=
   match goal with
   | H : neutral ?k = true |- kind_eqb ?k ?k' = false =>
       apply kind_eqb_neq; intro; subst k; discriminate H
+  | H : neutralM ?k = true |- kind_eqb ?k ?k' = false =>
+      apply kind_eqb_neq; intro; subst k; discriminate H
   end.
 
 Lemma dd_paren_kind e a m sp :
   kind_of (dd_paren e a m sp) = Some KCall \/ kind_of (dd_paren e a m sp) = Some KParen.
 Proof. unfold dd_paren. destruct (a_assigns a); [left | right]; reflexivity. Qed.
 
-Lemma dd_paren_neutral k e a m sp : neutral k = true -> is_kind k (dd_paren e a m sp) = false.
+Lemma dd_paren_neutral k e a m sp : neutralM k = true -> is_kind k (dd_paren e a m sp) = false.
 Proof.
   intros H. destruct (dd_paren_kind e a m sp) as [E|E]; rewrite (is_kind_of _ _ _ E); neutral_neq.
 Qed.
 
-Section Kinds.
+Section Steps.
   Variable c : config.
   Variable k : kind.
-  Hypothesis Hk : neutral k = true.
+  Hypothesis Hk : neutralM k = true.
 
   Lemma binary_transform_neutral e p e' p' :
     binary_transform c e p = (Some e', p') -> is_kind k e' = false.
@@ -157,6 +170,14 @@ Section Kinds.
     destruct (call_transform c n1 (o_p s1)) as [[[e' tag]|] p2] eqn:E; simpl; [right | left; reflexivity].
     eapply call_transform_neutral; exact E.
   Qed.
+
+End Steps.
+
+Section Kinds.
+  Variable c : config.
+  Variable k : kind.
+  Hypothesis Hk : neutral k = true.
+  Let HkM : neutralM k = true := neutral_M k Hk.
 
   (** The optional-chain visitor: the root stays what it was or becomes a call / member. *)
   Lemma oc_visit_neutral : forall fuel n s n' s',
@@ -264,19 +285,19 @@ Section Kinds.
     - destruct (plus_enabled c); [|eapply D; exact H].
       destruct (default_visit_with (op_visit c f false) n s) as [[n1 s1]|] eqn:E; [|discriminate].
       inversion H; subst. apply D in E.
-      rewrite (NK _ CK eq_refl) in *. destruct (bin_step_neutral n1 s1) as [X|X]; congruence.
+      rewrite (NK _ CK eq_refl) in *. destruct (bin_step_neutral c k HkM n1 s1) as [X|X]; congruence.
     - destruct (plus_enabled c); [|eapply D; exact H].
       destruct (default_visit_with (op_visit c f false) n s) as [[n1 s1]|] eqn:E; [|discriminate].
       inversion H; subst. apply D in E.
-      rewrite (NK _ CK eq_refl) in *. destruct (assign_step_neutral n1 s1) as [X|X]; congruence.
+      rewrite (NK _ CK eq_refl) in *. destruct (assign_step_neutral c k HkM n1 s1) as [X|X]; congruence.
     - destruct (tpl_enabled c); [|eapply D; exact H].
       destruct (tpl_instrumentable n); [|inversion H; reflexivity].
       destruct (default_visit_with (op_visit c f false) n s) as [[n1 s1]|] eqn:E; [|discriminate].
       inversion H; subst. apply D in E.
-      rewrite (NK _ CK eq_refl) in *. destruct (tpl_step_neutral n1 s1) as [X|X]; congruence.
+      rewrite (NK _ CK eq_refl) in *. destruct (tpl_step_neutral c k HkM n1 s1) as [X|X]; congruence.
     - destruct (default_visit_with (op_visit c f false) n s) as [[n1 s1]|] eqn:E; [|discriminate].
       inversion H; subst. apply D in E.
-      rewrite (NK _ CK eq_refl) in *. destruct (call_step_neutral n1 s1) as [X|X]; congruence.
+      rewrite (NK _ CK eq_refl) in *. destruct (call_step_neutral c k HkM n1 s1) as [X|X]; congruence.
     - destruct (optchain_transform c f n (o_p s)) as [[[n1 md] p1]|] eqn:E; [|discriminate].
       destruct (struct_level_with c (op_visit c f false) n1 (o_with_p p1 s)) as [[n2 s3]|] eqn:E2; [|discriminate].
       inversion H; subst.
